@@ -12,7 +12,6 @@ Tasks
 import re
 import time
 import random
-from fractions import Fraction
 
 from runner import ref_formula as R
 from runner.c01 import tables, info, real_formula
@@ -154,6 +153,8 @@ def random_case(rng, i):
     qs = [random_quantity(rng) for _ in range(n)]
     kw = {}
     r = rng.random()
+    if not any(q > 0 for q in qs):
+        r = 1.0       # an empty mixture has no density to set (0/0), outside the property
     if r < 0.08:
         kw["density"] = rng.choice([1.5, 2.25, 0.9])
     elif r < 0.16:
@@ -311,13 +312,17 @@ PAIRS_WHAT = {
 }
 
 
-def _group(groups, cause, s_key, inp, observed, expected):
+def _group(groups, cause, s_key, inp, observed, expected, prio=2):
+    """collect one failure under its cause; examples ordered by (priority, length): fixed systematic inputs
+    first so that the key of a cause is the same in both tiers"""
     g = groups.setdefault(cause, dict(count=0, examples=[]))
     g["count"] += 1
     ex = g["examples"]
-    if all(e["id"] != s_key for e in ex) and (len(ex) < 6 or len(s_key) < len(ex[-1]["id"])):
-        ex.append(dict(id=s_key, input=inp, observed=observed, expected=expected))
-        ex.sort(key=lambda e: (len(e["id"]), e["id"]))
+    e = dict(id=s_key, input=inp, observed=observed, expected=expected, prio=prio)
+    k = (prio, len(s_key), s_key)
+    if all(x["id"] != s_key for x in ex) and (len(ex) < 6 or k < (ex[-1]["prio"], len(ex[-1]["id"]), ex[-1]["id"])):
+        ex.append(e)
+        ex.sort(key=lambda x: (x["prio"], len(x["id"]), x["id"]))
         del ex[6:]
 
 
@@ -367,7 +372,7 @@ def task_pairs(tier, seed, arg):
         if len(samples) < 5 and i % 401 == 0:
             samples.append(dict(case=case, violations=len(res)))
         for cause, obs, exp in res:
-            _group(groups, cause, cid, case, obs, exp)
+            _group(groups, cause, cid, case, obs, exp, 0 if i < len(fixed) else 2)
     violations = []
     for cause, g in sorted(groups.items()):
         first = g["examples"][0]
@@ -389,43 +394,92 @@ def task_pairs(tier, seed, arg):
 # ---------------------------------------------------------------------------------------------
 # strings
 # ---------------------------------------------------------------------------------------------
-def part_string(p):
+def _part_argument(p, T):
+    """a component of the corresponding call: compounds as strings, parenthesised mixtures as the Formula
+    of the inner mixture string with the density tag applied through the documented keywords"""
+    import periodictable
+    if isinstance(p, R.GroupedMixture):
+        kw = {}
+        if p.density is not None:
+            kw["natural_density" if p.density[1] == "n" else "density"] = float(R.cval(p.density[0]))
+        return periodictable.formula(R.render(p.mixture), table=T, **kw)
     return R.render(p)
 
 
 def corresponding_call(ast, T):
-    """the mix_by_* call the guide says the string is equivalent to: (by, args) or None"""
+    """the mix_by_* call the guide says the string is equivalent to: (by, args); raises if a component
+    cannot be built on its own (then there is nothing to compare with)"""
     top = ast.mixture if isinstance(ast, R.GroupedMixture) else ast
     if isinstance(top, R.Percentage):
         pcts = [R.cval(c) for c, _ in top.items]
         args = []
         for (c, p), v in zip(top.items, pcts):
-            args += [R.render(p), float(v)]
-        args += [R.render(top.base), float(100 - sum(pcts))]
+            args += [_part_argument(p, T), float(v)]
+        args += [_part_argument(top.base, T), float(100 - sum(pcts))]
         return ("weight" if top.kind == "wt" else "volume"), args
-    if isinstance(top, R.Quantity):
-        parts, amounts = R._quantity_amounts(top, T)
-        args = []
-        for it, amt in zip(top.items, amounts):
-            text = R.render(it.quantity) if isinstance(it, R.QRepeat) else R.render(it.part)
-            args += [text, amt]
-        return ("volume" if top.family == "length" else "weight"), args
-    return None
+    parts, amounts = R._quantity_amounts(top, T)
+    args = []
+    for it, amt in zip(top.items, amounts):
+        if isinstance(it, R.QRepeat):
+            import periodictable
+            args += [periodictable.formula(R.render(it.quantity), table=T), amt]
+        else:
+            args += [_part_argument(it.part, T), amt]
+    return ("volume" if top.family == "length" else "weight"), args
 
 
-def features(ast):
+def features(ast, style=None):
     top = ast.mixture if isinstance(ast, R.GroupedMixture) else ast
     fam = top.kind if isinstance(top, R.Percentage) else top.family
-    toks = R.tokens(ast)
-    rep = any(t[0] == "rcount" or (t[0] == "mclose" and isinstance(t[2], R.QRepeat)) for t in toks)
-    rep_fams = set(t[2].quantity.family for t in toks if t[0] == "mclose" and isinstance(t[2], R.QRepeat))
-    return fam, rep, rep_fams
+    toks = R.tokens(ast, style)
+    rep = any(t[0] == "mclose" and isinstance(t[2], R.QRepeat) for t in toks)
+    rep_len = any(t[0] == "mclose" and isinstance(t[2], R.QRepeat) and t[2].quantity.family == "length"
+                  for t in toks)
+    # a percent sign that ends the keyword (bare '%', or '%wt', '%v' ...) then white space then a part with
+    # a leading count
+    pct_space_count = None
+    for i, t in enumerate(toks):
+        k = t[1].strip()
+        if t[0] == "kw" and (k == "%" or not k.endswith("%")) and t[1].endswith(" ") \
+                and i + 1 < len(toks) and toks[i + 1][0] == "lcount":
+            if k == "%":
+                pct_space_count = "bare_percent"
+            elif pct_space_count is None:
+                pct_space_count = "percent_first_keyword"
+    # an ion inside a part whose density is given as natural density
+    nat_ion = False
+    for t in toks:
+        if t[0] == "dens" and t[1].endswith("n"):
+            try:
+                sub = t[2] if isinstance(t[2], R.Compound) else t[2]
+                nat_ion = nat_ion or any(x[0] == "ion" for x in R.tokens(sub))
+            except Exception:
+                pass
+    return dict(fam=fam, rep=rep, rep_len=rep_len, pct_space_count=pct_space_count, nat_ion=nat_ion)
+
+
+def exception_cause(exc, feat):
+    msg = _norm_msg(exc)
+    if "absthick" in msg:
+        return "exception:" + msg + ":parenthesised_layer_group"
+    if isinstance(exc, ValueError) and "unknown element L" in str(exc):
+        return "exception:" + msg + ":litre_unit_first_in_list"
+    if isinstance(exc, TypeError) and "NoneType" in str(exc) and "float" in str(exc):
+        return "exception:" + msg + ":single_isotope_of_element_without_density"
+    if type(exc).__name__ == "ParseException":
+        if feat["pct_space_count"]:
+            return "exception:ParseException:%s_then_space_then_counted_part" % feat["pct_space_count"]
+        return "exception:ParseException:other"
+    return "exception:" + msg
 
 
 def check_string(ast, style, T, with_call=True, literal=None):
     """(string, [(cause, observed, expected)])"""
     s = literal if literal is not None else R.render(ast, style)
-    fam, rep, rep_fams = features(ast)
+    feat = features(ast, style)
+    fam = feat["fam"]
+    suffix = (":natural_density_tag_with_ion" if feat["nat_ion"] else "") + \
+             (":repeated_group" if feat["rep"] else "")
     out = []
     try:
         m = R.meaning(ast, T)
@@ -447,9 +501,7 @@ def check_string(ast, style, T, with_call=True, literal=None):
     except Exception as exc:
         if exp_err is not None:
             return s, out
-        tag = ":repeated_%s_group" % "/".join(sorted(rep_fams)) if rep_fams else ""
-        return s, [("exception:%s%s" % (_norm_msg(exc), tag),
-                    "%s: %s" % (type(exc).__name__, str(exc)[:150]),
+        return s, [(exception_cause(exc, feat), "%s: %s" % (type(exc).__name__, str(exc)[:150]),
                     dict(composition=R.atoms_json(m.fractions()), density=m.density, total_mass=m.total_mass,
                          thickness=m.thickness))]
     if exp_err is not None:
@@ -460,32 +512,27 @@ def check_string(ast, style, T, with_call=True, literal=None):
             if not d:
                 continue
             obs, exp = dict(atom=d[0], share=d[1]), dict(atom=d[0], share=d[2])
-        cause = "%s:%s" % (clause, fam)
-        if clause == "density":
-            tags = [t[1] for t in R.tokens(ast) if t[0] == "dens"]
-            if has_ion(m.atoms) and any(t.endswith("n") for t in tags):
-                cause += ":natural_density_tag_with_ion"
-        if rep:
-            cause += ":repeated_group"
-        out.append((cause, obs, exp))
+        out.append(("%s:%s%s" % (clause, fam, suffix), obs, exp))
     if with_call and not out:
-        call = corresponding_call(ast, T)
-        if call:
-            by, args = call
-            try:
-                h = _mixers()[by](*args, table=T)
-                d = composition_diff(fractions_of(h.atoms), fractions_of(f.atoms))
-                top_tag = ast.density if isinstance(ast, R.GroupedMixture) else None
-                if d:
-                    out.append(("string_vs_call:composition:%s" % fam, dict(call=[by] + args, atom=d[0], share=d[1]),
-                                dict(atom=d[0], share=d[2])))
-                elif top_tag is None and not R.close(h.density, f.density, REL):
-                    out.append(("string_vs_call:density:%s" % fam, dict(call=[by] + args, density=h.density),
-                                f.density))
-            except Exception as exc:
-                out.append(("string_vs_call:call_raises:%s%s" % (_norm_msg(exc), ":repeated_group" if rep else ""),
-                            dict(call=[by] + args, error="%s: %s" % (type(exc).__name__, str(exc)[:120])),
-                            "same mixture as the string"))
+        try:
+            by, args = corresponding_call(ast, T)
+        except Exception:
+            return s, out      # a component does not stand on its own: nothing to compare with
+        shown = [by] + [a if isinstance(a, (str, float, int)) else str(a) for a in args]
+        try:
+            h = _mixers()[by](*args, table=T)
+            d = composition_diff(fractions_of(h.atoms), fractions_of(f.atoms))
+            top_tag = ast.density if isinstance(ast, R.GroupedMixture) else None
+            if d:
+                out.append(("string_vs_call:composition:%s%s" % (fam, suffix),
+                            dict(call=shown, atom=d[0], share=d[1]), dict(atom=d[0], share=d[2])))
+            elif top_tag is None and not R.close(h.density, f.density, REL):
+                out.append(("string_vs_call:density:%s%s" % (fam, suffix), dict(call=shown, density=h.density),
+                            f.density))
+        except Exception as exc:
+            out.append(("string_vs_call:call_raises:%s%s" % (_norm_msg(exc), suffix),
+                        dict(call=shown, error="%s: %s" % (type(exc).__name__, str(exc)[:120])),
+                        "same mixture as the string"))
     return s, out
 
 
@@ -511,6 +558,8 @@ def systematic_strings():
                      ["33.3", "33.3", "33.4"], ["1.", ".5"]):
             parts = [P(x) for x in ("Fe", "Co", "Ni", "Cu")]
             out.append(R.Percentage(kind, list(zip(pcts, parts)), parts[len(pcts)]))
+        out.append(R.Percentage(kind, [("10", P("Fe")), ("15", P("2H2O@1"))], P("Ni")))
+        out.append(R.Percentage(kind, [("10", P("2H2O@1"))], P("2NaCl@2.16")))
         out.append(R.Percentage(kind, [("10", P("NaCl@2.16"))], P("H2O@1")))
         out.append(R.Percentage(kind, [("10", P("NaCl"))], P("H2O@1")))
         out.append(R.Percentage(kind, [("10", P("NaCl@2.16"))], P("H2O")))
@@ -550,6 +599,25 @@ def systematic_strings():
     return out
 
 
+STRINGS_EXPLAIN = {
+    "parenthesised_layer_group": "convert_by_layer reads p1.absthick, an attribute nothing sets (the recorded "
+                                 "amount is `thickness`): every '( layers ) n' group raises AttributeError",
+    "litre_unit_first_in_list": "the unit 'L' is listed in the guide, but when 'count L' starts the string or "
+                                "follows '(' the compound alternative is tried first, reads 'L' as an element "
+                                "symbol and its parse action raises ValueError, which aborts the parse "
+                                "('1 L H2O@1' fails, '3 mL Fe // 1 L Fe' works)",
+    "bare_percent_then_space_then_counted_part": "guide: later items 'can use a bare %' ('10wt% Fe // 15% Co // "
+                                                 "Ni'); after a bare '%' white space is not consumed, so a part "
+                                                 "that starts with a count ('15% 2H2O@1') is rejected",
+    "percent_first_keyword_then_space_then_counted_part": "with the keyword spelled '%wt' / '%vol' (accepted by the "
+                                                          "code's regexes, not shown in the guide) white space "
+                                                          "is not consumed, so a part that starts with a count "
+                                                          "is rejected; 'wt%'/'vol%' consume the space and work",
+    "single_isotope_of_element_without_density": "a part that is a single isotope (ion) of an element of unknown "
+                                                 "density: the single-atom density default raises (C06/C01 root "
+                                                 "cause), instead of leaving the density unknown",
+    "natural_density_tag_with_ion": "a part with '@dn' that contains ions: natural_mass_ratio defect of C12",
+}
 STRINGS_WHAT = {
     "exception": "a mixture string of the documented grammar is rejected",
     "should_raise": "the guide says this mixture is impossible (missing density / percentages above 100) but a "
@@ -584,13 +652,23 @@ def task_strings(tier, seed, arg):
     t0 = time.time()
     tabs = tables()
     groups, evals, seen, samples = {}, 0, set(), []
-    harness = {}
+    harness, extension, n_ext = {}, {}, 0
     covered_units, covered_kw, max_depth, n_rep = set(), set(), 0, 0
     for i, (family, ast, style) in enumerate(strings_plan(tier, seed)):
         tname = "private" if i % 9 == 4 else "public"
         s, res = check_string(ast, style, tabs[tname], with_call=(i % 2 == 0))
         if res and res[0][0].startswith("HARNESS"):
             harness.setdefault(res[0][0], []).append(s)
+            continue
+        if isinstance(ast, R.GroupedMixture):
+            # '( mixture )@d' as a whole formula is accepted by the code's grammar but is not in the
+            # guide's EBNF (`formula :: compound | mixture | nothing`): observations only
+            n_ext += 1
+            for cause, obs, exp in res:
+                ext = extension.setdefault(cause, [0, []])
+                ext[0] += 1
+                if len(ext[1]) < 3:
+                    ext[1].append(s)
             continue
         evals += 1
         seen.add(s)
@@ -604,13 +682,16 @@ def task_strings(tier, seed, arg):
         max_depth = max(max_depth, R.mixture_depth(ast))
         if len(samples) < 5 and i % 307 == 0:
             samples.append(dict(string=s, table=tname, violations=[r[0] for r in res]))
+        prio = 2 if family != "systematic" else (0 if style is R.STYLES[0] else 1)
         for cause, obs, exp in res:
-            _group(groups, cause, s, dict(string=s, table=tname), obs, exp)
+            _group(groups, cause, s, dict(string=s, table=tname), obs, exp, prio)
     violations = []
     for cause, g in sorted(groups.items()):
         first = g["examples"][0]
         violations.append(dict(
-            key="strings:%s:%s" % (cause, first["id"]), what=STRINGS_WHAT.get(cause.split(":")[0], cause),
+            key="strings:%s:%s" % (cause, first["id"]),
+            what=STRINGS_WHAT.get(cause.split(":")[0], cause) + "".join(
+                " [" + v + "]" for k, v in STRINGS_EXPLAIN.items() if k in cause),
             input=first["input"], observed=first["observed"], expected=first["expected"], count=g["count"],
             examples=[e["id"] for e in g["examples"][:3]]))
     notes = ["BOUNDED: %d strings; units seen %s; percent keywords seen %s; nesting up to %d; %d counted "
@@ -619,6 +700,10 @@ def task_strings(tier, seed, arg):
              "`thickness`, which is what is checked",
              "shares below %g of all atoms are treated as absent (the remainder 100 - sum of the percentages "
              "is formed in floating point)" % TINY]
+    if n_ext:
+        notes.append("observation (not in the EBNF, not counted): %d whole-string parenthesised mixtures "
+                     "'( mixture )@d' were also tried; failures: %s"
+                     % (n_ext, {k: dict(count=v[0], examples=v[1]) for k, v in sorted(extension.items())} or "none"))
     for k, v in harness.items():
         notes.append("%s: %d strings skipped, e.g. %r" % (k, len(v), v[:3]))
     notes.append("runtime %.1f s" % (time.time() - t0))
